@@ -144,8 +144,11 @@ func rulesC05(c *Ctx) {
 	posoriginC05(c, entry)
 	delimitedC05(c)
 	readVerbatimRule(c, "C05.readverbatim")
+	runeFaceRule(c, "C05.runeface")
 	stringEndRule(c, "C05.strend")
 	eofMarkerRule(c, "C05.eofmarker")
+	// scanning terminates: the comment skippers end at end of input
+	commentsRule(c, "C05.comments")
 	// ---- sub-scanner entry matches what the sub-scanner accepts ----
 	c.Rule("C05.idententry", "Scan hands a rune to the identifier scanner exactly when isIdentFirstChar accepts it (or it is a double quote): for any other rune the identifier scanner reads nothing, the token is empty and the scan never gets past that rune")
 	identEntryRule(c, "C05.idententry")
@@ -178,6 +181,27 @@ func posoriginC05(c *Ctx, entry map[string]map[int]bool) {
 		names = append(names, n)
 	}
 	sort.Strings(names)
+	type delegation struct {
+		from, to, sub string
+		pos           token.Pos
+	}
+	var delegated []delegation
+	shifted := map[string]bool{} // sub-scanners whose own position is off
+	defer func() {
+		seen := map[string]bool{}
+		for _, d := range delegated {
+			key := fmt.Sprintf("(*Scanner).%s: position delegated to %s", d.from, d.to)
+			if seen[key] {
+				continue
+			}
+			seen[key] = true
+			if shifted[d.sub] {
+				c.Bad("C05.posorigin", key, d.pos, "the position handed on is the one "+d.sub+" computes, which is not that of the token's first rune")
+			} else {
+				c.OK("C05.posorigin", key, d.pos, d.sub+" reports the first rune")
+			}
+		}
+	}()
 	for _, name := range names {
 		f := p.SSAFunc(p.Method("Scanner", name))
 		if f == nil {
@@ -223,11 +247,44 @@ func posoriginC05(c *Ctx, entry map[string]map[int]bool) {
 					continue
 				}
 			}
-			// delegations return another scanner's position
+			// delegations return another scanner's position: right exactly when
+			// that scanner's own position is (decided after all scanners are done)
 			if ex, ok := ret.Results[1].(*ssa.Extract); ok {
 				if call, ok := ex.Tuple.(*ssa.Call); ok {
 					cal := call.Call.StaticCallee()
 					if cal != read && cal != curr {
+						if cal != nil && cal.Signature.Recv() != nil {
+							// which token travels with the delegated position
+							var toks []string
+							var collect func(v ssa.Value, d int)
+							collect = func(v ssa.Value, d int) {
+								if d > 4 {
+									return
+								}
+								switch x := v.(type) {
+								case *ssa.Const:
+									if x.Value != nil {
+										n, _ := constant.Int64Val(constant.ToInt(x.Value))
+										toks = append(toks, tt.Name[n])
+									}
+								case *ssa.Extract:
+									if x.Tuple == ssa.Value(call) {
+										toks = append(toks, cal.Name()+"'s token")
+									} else {
+										toks = append(toks, "?")
+									}
+								case *ssa.Phi:
+									for _, e := range x.Edges {
+										collect(e, d+1)
+									}
+								default:
+									toks = append(toks, "?")
+								}
+							}
+							collect(ret.Results[0], 0)
+							sort.Strings(toks)
+							delegated = append(delegated, delegation{from: name, to: cal.Name() + " with " + strings.Join(toks, " / "), sub: cal.Name(), pos: ret.Pos()})
+						}
 						continue
 					}
 				}
@@ -245,10 +302,12 @@ func posoriginC05(c *Ctx, entry map[string]map[int]bool) {
 			}
 			switch {
 			case !known && late:
+				shifted[name] = true
 				c.Bad("C05.posorigin", key, ret.Pos(), "the position is taken from the reader after the token's text was consumed: the token is reported where it ends (only BADESCAPE reports the offending escape by design)")
 			case !known:
 				c.Unk("C05.posorigin", key, ret.Pos(), "the returned position is not one captured in the function's entry block")
 			case off != 0:
+				shifted[name] = true
 				c.Bad("C05.posorigin", key, ret.Pos(), fmt.Sprintf("the position is captured %+d runes from the token's first rune", off))
 			default:
 				c.OK("C05.posorigin", key, ret.Pos(), "captured at the first rune")
@@ -322,6 +381,8 @@ func rulesC06(c *Ctx) {
 	p := c.P
 	tt := p.tokenTable()
 	readVerbatimRule(c, "C06.readverbatim")
+	runeFaceRule(c, "C06.runeface")
+	argsUntouchedRule(c, "C06.argsuntouched", "QuoteIdent", "QuoteString", "IdentNeedsQuotes")
 	stringEndRule(c, "C06.strend")
 	c.Rule("C06.pure", "QuoteString, QuoteIdent and IdentNeedsQuotes (and what they call in the package) read no mutable package-level state: the quoted form depends on the value alone (a memo keyed by the joined segments answers `a.b` quoted as one name with the form computed for the two names a, b)")
 	pureRule(c, "C06.pure", "QuoteString", "QuoteIdent", "IdentNeedsQuotes")
@@ -1165,5 +1226,122 @@ func eofMarkerRule(c *Ctx, rule string) {
 	}
 	if n == 0 {
 		c.Unk(rule, "(*reader).read: end marker", f.Pos(), "no constant substituted on the error branch of ReadRune was found")
+	}
+}
+
+// runeFaceRule: the io.RuneScanner face of the reader fails only at the end.
+func runeFaceRule(c *Ctx, rule string) {
+	p := c.P
+	c.Rule(rule, "reader.ReadRune (what ScanString, ScanDelimited and ScanBareIdent read through), evaluated with reader.read delivering sample runes, returns a nil error for every character (U+FFFD, U+0000 and the largest rune included) and a non-nil one exactly for the end marker: a character that is reported as an error ends the quoted text it occurs in")
+	f := p.SSAFunc(p.Method("reader", "ReadRune"))
+	read := p.SSAFunc(p.Method("reader", "read"))
+	if f == nil || read == nil {
+		c.Unk(rule, "(*reader).ReadRune", 0, "anchor not found")
+		return
+	}
+	eofR := p.eofRune()
+	n := 0
+	for _, ch := range []rune{eofR, 'a', 0, '\n', '\'', 0xFFFD, 0x10FFFF, 0xE9} {
+		if ch == eofR && n > 0 {
+			continue
+		}
+		n++
+		s := p.newSCCP()
+		s.hook = func(call *ssa.Call, args []cval) ([]cval, bool) {
+			if call.Call.StaticCallee() == read {
+				return []cval{cConst(constant.MakeInt64(int64(ch))), cTop}, true
+			}
+			return nil, false
+		}
+		// package-level error values are distinct non-nil errors
+		s.override = map[ssa.Value]cval{}
+		for _, b := range f.Blocks {
+			for _, in := range b.Instrs {
+				if u, ok := in.(*ssa.UnOp); ok && u.Op == token.MUL {
+					if g, ok := u.X.(*ssa.Global); ok && types.Identical(u.Type(), types.Universe.Lookup("error").Type()) {
+						s.override[u] = cSym("err:" + g.Name())
+					}
+				}
+			}
+		}
+		key := "(*reader).ReadRune: on " + p.runeLabel(ch)
+		rets := s.Eval(f, nil)
+		if len(rets) == 0 {
+			c.Unk(rule, key, f.Pos(), "no return reachable")
+			continue
+		}
+		errNil, errSet, unknown := false, false, false
+		for _, rp := range rets {
+			e := rp.Results[len(rp.Results)-1]
+			switch {
+			case e.nilc:
+				errNil = true
+			case e.k == 1:
+				errSet = true
+			default:
+				unknown = true
+			}
+		}
+		switch {
+		case unknown:
+			c.Unk(rule, key, f.Pos(), "the error result is not a constant of the rune")
+		case ch == eofR:
+			c.Check(errSet && !errNil, rule, key, f.Pos(), "the end marker must be reported as an error")
+		default:
+			c.Check(errNil && !errSet, rule, key, f.Pos(), fmt.Sprintf("%U is a character of the text, but ReadRune reports an error for it: a quoted string or identifier holding it is cut short (BADSTRING)", ch))
+		}
+	}
+}
+
+// argsUntouchedRule: the quoting helpers do not write into what they are given.
+func argsUntouchedRule(c *Ctx, rule string, names ...string) {
+	p := c.P
+	c.Rule(rule, "QuoteIdent, QuoteString and IdentNeedsQuotes store nothing through their parameters: a variadic call QuoteIdent(parts...) hands over the caller's slice, and a helper that writes the quoted form back into it quotes the name twice on the next call")
+	for _, name := range names {
+		f := p.SSAFunc(p.Func(name))
+		if f == nil {
+			c.Unk(rule, name, 0, "anchor not found")
+			continue
+		}
+		var rooted func(v ssa.Value, d int) bool
+		rooted = func(v ssa.Value, d int) bool {
+			if d > 6 {
+				return false
+			}
+			switch x := v.(type) {
+			case *ssa.Parameter:
+				return true
+			case *ssa.IndexAddr:
+				return rooted(x.X, d+1)
+			case *ssa.FieldAddr:
+				return rooted(x.X, d+1)
+			case *ssa.Slice:
+				return rooted(x.X, d+1)
+			case *ssa.Phi:
+				for _, e := range x.Edges {
+					if rooted(e, d+1) {
+						return true
+					}
+				}
+			}
+			return false
+		}
+		bad := false
+		for _, g := range append([]*ssa.Function{f}, f.AnonFuncs...) {
+			for _, b := range g.Blocks {
+				for _, in := range b.Instrs {
+					if st, ok := in.(*ssa.Store); ok && rooted(st.Addr, 0) {
+						if _, direct := st.Addr.(*ssa.Parameter); direct {
+							continue
+						}
+						bad = true
+						c.Bad(rule, name+": store through a parameter", st.Pos(), "the helper writes into memory its caller owns")
+					}
+				}
+			}
+		}
+		if !bad {
+			c.OK(rule, name+": store through a parameter", f.Pos(), "none")
+		}
 	}
 }
